@@ -1,0 +1,16 @@
+//go:build verif
+
+package index
+
+// VerifAwaitReindex waits until all asynchronous out-of-order indexing
+// goroutines started so far have finished.
+func (x *Index) VerifAwaitReindex() {
+	x.reindexWg.Wait()
+}
+
+// VerifNeedCounts reports the sizes of the missing-dependency bookkeeping.
+func (x *Index) VerifNeedCounts() (needs, neededBy, readyReindex int) {
+	x.RLock()
+	defer x.RUnlock()
+	return len(x.needs), len(x.neededBy), len(x.readyReindex)
+}
